@@ -6,21 +6,21 @@ from typing import Any, Optional
 
 from autobean_refactor.models import base
 
-from vf.gen import ledger as L, ops as OPS
+from vf.gen import ledger as L, ops as OPS, sweeps
 from vf.obs import core as O
 from vf.props import common, c04
 from vf.run import Job, Result
 
 ID = 'C11'
 RULE = ('A generated ledger (G1, either attribution mode, optionally after a short claim/unclaim program so that placeholders have moved); '
-        'in a share of the cases some models get a non-default indent_by first; a model chosen by selector at any depth (sweep job: every sub-model of each document) is deep-copied; then an edit program of 1-6 operations from '
+        'in a share of the cases some models get a non-default indent_by first; a model chosen by selector at any depth (sweep job: every sub-model of each document; slot-sweep job: the same after every optional / required / value slot of every class was filled or cleared once; copy-after-edit stage: after a generated edit program) is deep-copied; then an edit program of 1-6 operations from '
         'every family is applied to the copy and another to the original. Oracle: copy == original and original == copy; same printed text; same indent_by and claimed flags on corresponding sub-models; no '
         'shared token; the copy satisfies the structural invariants in its own store and spans it entirely; editing the copy leaves the original '
         'document\'s snapshot (text, token identities, structure, flags) unchanged and editing the original leaves the copy\'s snapshot unchanged. '
         'Non-trivial = the copied model is not the root, has >= 1 tree-model child, and a structural edit was applied inside the copy.')
 ASSUMPTIONS = ['edit programs for the copy are generated against a scratch copy of the same model (state-aware), then replayed']
 SHRINK_LISTS = ('ops', 'ops2', 'pre', 'indent_by', 'dirs')
-REQUIRED_CLASSES = ('view-copies', 'indent_by-set', 'claim:on', 'claim:off', 'after-claim-program', 'depth>=2', 'edited-copy', 'edited-original', 'token-copy')
+REQUIRED_CLASSES = ('copy-after-edit', 'sweep-after-edit', 'view-copies', 'indent_by-set', 'claim:on', 'claim:off', 'after-claim-program', 'depth>=2', 'edited-copy', 'edited-original', 'token-copy')
 
 
 def check_copy(m: Any, cp: Any, what: str) -> list:
@@ -120,6 +120,14 @@ def run_case(case: dict) -> Result:
                 holders[sel % len(holders)].indent_by = text
                 classes.add('indent_by-set')
     if case.get('sweep'):
+        if case.get('ops'):
+            # the slot sweep as a prelude: every optional / required / value slot of every class filled or cleared once, then everything is copied
+            for op in case['ops']:
+                try:
+                    OPS.resolve(root, op).run()
+                    classes.add('sweep-after-edit')
+                except Exception:  # noqa: BLE001
+                    pass
         for m, d in O.walk(root):
             if isinstance(m, O.Repeated):
                 continue
@@ -195,6 +203,21 @@ def run_case(case: dict) -> Result:
                 if d:
                     res.bad(f'copy-changed:{a.key()}', f'editing the original with {op} changed the copy of {type(m).__name__}: {d}')
                     break
+    # a copy taken after the edits (of the edited copy, and of the edited original's model): still equal, exact, complete
+    if not res.violations:
+        for label, obj in (('edited-copy', cp), ('edited-original', m)):
+            try:
+                if obj.token_store is None or O.invariants(obj, whole_store=(obj is cp)):
+                    continue   # an edit broke the tree: C05's subject
+                cp2 = copy.deepcopy(obj)
+            except Exception as e:  # noqa: BLE001
+                res.bad(f'copy-after-edit-raised:{label}:{type(obj).__name__}:{type(e).__name__}', f'deepcopy of the {label} {type(obj).__name__} raised {e!r} after {case.get("ops")} / {case.get("ops2")}')
+                break
+            classes.add('copy-after-edit')
+            bad = check_copy(obj, cp2, 'copy after edits (' + label + ')')
+            if bad:
+                res.bad(bad[0][0] + ':after-edit', bad[0][1])
+                break
     res.classes = sorted(classes)
     res.nontrivial = depth >= 1 and has_tree_child and structural
     return res
@@ -280,6 +303,8 @@ def _edge_docs():
 def jobs(tier: str) -> list[Job]:
     if tier == 'quick':
         return [Job('copy-and-edit', 'hyp', lambda: _build(tier, False), 2000), Job('sweep-all-submodels', 'hyp', lambda: _build(tier, True), 250),
-                Job('edge-documents', 'enum', _edge_docs, exhaustive=True)]
+                Job('edge-documents', 'enum', _edge_docs, exhaustive=True),
+                Job('slot-sweep-then-copy', 'enum', lambda: sweeps.slot_sweep(per_key=1, n_docs=300), exhaustive=True)]
     return [Job('copy-and-edit', 'hyp', lambda: _build(tier, False), 60000), Job('sweep-all-submodels', 'hyp', lambda: _build(tier, True), 8000),
-            Job('edge-documents', 'enum', _edge_docs, exhaustive=True)]
+            Job('edge-documents', 'enum', _edge_docs, exhaustive=True),
+            Job('slot-sweep-then-copy', 'enum', lambda: sweeps.slot_sweep(per_key=2, n_docs=500), exhaustive=True)]
